@@ -396,7 +396,11 @@ def topological_sort(nodes):
         node = nodes[index]
         for dep in node.dependencies():
             dep = enumerators.get(dep, dep)
-            if dep != node.name and dep not in known and dep in available:
+            if dep == node.name:
+                if isinstance(node, Enum):
+                    continue
+                raise ModelError("Definition '%s' depends on itself." % node.name)
+            if dep not in known and dep in available:
                 found_index = find_first_dep(dep, index + 1)
                 if not found_index or dep in rotated:
                     raise ModelError("Cyclic dependency between definitions '%s' and '%s'." % (node.name, dep))
